@@ -4,7 +4,7 @@ import sys, os, subprocess, json, shutil, re
 prop, var = sys.argv[1], sys.argv[2]
 wave = sys.argv[3] if len(sys.argv) > 3 else "1"
 src = f"/tmp/seed/out_{prop}/{var}" if wave == "1" else f"/tmp/seed/out{wave}_{prop}/{var}"
-name = var if wave == "1" else {"2": {"a": "c", "b": "d"}, "4": {"a": "e", "b": "f"}, "6": {"a": "g", "b": "h"}, "10": {"a": "i", "b": "j"}}[wave][var]
+name = var if wave == "1" else {"2": {"a": "c", "b": "d"}, "4": {"a": "e", "b": "f"}, "6": {"a": "g", "b": "h"}, "10": {"a": "i", "b": "j"}, "14": {"a": "k", "b": "l"}}[wave][var]
 dst = f"/verif/seeded/{prop}{name}"
 env = dict(os.environ)
 if "-race" in open(src + "/README.md").read() and not os.environ.get("NORACE"):
